@@ -326,6 +326,33 @@ theorem wf_alFree (s : ApiState) (h : WF s) (k : Nat) : WF (step s (.alFree k)).
     cases j <;> simp_all [live, isAliU]
   · exact h
 
+theorem wf_alAdd (s : ApiState) (h : WF s) (k n plen : Nat) : WF (step s (.alAdd k n plen)).1 := by
+  simp only [step]
+  split
+  · refine { dead := h.dead, noSearch := h.noSearch, activeIff := h.activeIff, inUtt := h.inUtt,
+             dagFresh := h.dagFresh, alFresh := h.alFresh, iters := ?_ }
+    refine iters_of_invalidate h (p := isAliU k) rfl ?_
+    intro j hp hl
+    cases j <;> simp_all [live, isAliU]
+  · exact h
+
+theorem wf_alPop (s : ApiState) (h : WF s) (k e : Nat) : WF (step s (.alPop k e)).1 := by
+  simp only [step]
+  split
+  · refine { dead := h.dead, noSearch := h.noSearch, activeIff := h.activeIff, inUtt := h.inUtt,
+             dagFresh := h.dagFresh, alFresh := h.alFresh, iters := ?_ }
+    refine iters_of_invalidate h (p := isAliU k) rfl ?_
+    intro j hp hl
+    cases j <;> simp_all [live, isAliU]
+  · exact h
+
+theorem wf_alBuild (s : ApiState) (h : WF s) (k : Nat) : WF (step s (.alBuild k)).1 := by
+  simp only [step]
+  (repeat' split) <;> first
+    | exact h
+    | exact h.congr rfl rfl rfl rfl rfl rfl rfl rfl rfl rfl rfl rfl
+        (fun _ hk => List.mem_cons_of_mem _ hk) rfl (fun _ x => x)
+
 theorem wf_alIterUser (s : ApiState) (h : WF s) (id k : Nat) (ru r a e : Bool) :
     WF (step s (.alIter id (.user k) ru r a e)).1 := by
   simp only [step]
@@ -637,6 +664,9 @@ theorem wf_step (s : ApiState) (c : Call) (h : WF s) : WF (step s c).1 := by
   | align ru r a => exact wf_align s h ru r a
   | alRetain k ru r a => exact wf_alRetain s h k ru r a
   | alFree k => exact wf_alFree s h k
+  | alBuild k => exact wf_alBuild s h k
+  | alAdd k n p => exact wf_alAdd s h k n p
+  | alPop k e => exact wf_alPop s h k e
   | alIter i src ru r a e =>
     cases src with
     | dec => exact wf_alIterDec s h i ru r a e
